@@ -603,7 +603,7 @@ class Explorer:
         return make
 
     def explore_case(self, case: dict, named=None, max_schedules: int = 20000, deadline: float | None = None,
-                     reduce: bool = False) -> dict:
+                     reduce: bool = False, bound: int | None = None) -> dict:
         """explore all interleavings of one program; returns per-case summary"""
         allowed = self.allowed(case)
         n = len(case["threads"])
@@ -656,7 +656,7 @@ class Explorer:
         while True:
             w0 = set(self.written_attrs)
             count, pruned, exhaustive = sched.explore(setup2, self._bodies(case), n, self.files, on_run,
-                                                      max_schedules=max_schedules, reduce=reduce)
+                                                      max_schedules=max_schedules, reduce=reduce, bound=bound)
             if not reduce or self.written_attrs == w0 or (deadline is not None and time.time() > deadline):
                 break
             # an attribute turned out to be written by workers: reads of it were wrongly treated as
@@ -1003,6 +1003,15 @@ def _worker_main() -> int:
             info = None                      # reported by the parent; explore without extraction validation
         ex = Explorer(info, Counter())
         with open(job["out"], "a") as fh:
+            # the lock discipline of some method no longer checks: FIRST, for every program that uses such a method,
+            # every interleaving with at most 2 pre-emptions (a few hundred runs each; unlike the capped plain DFS
+            # below, which spends its cap permuting the early lines, it reaches the late lines of both operations)
+            aff = set(job.get("affected") or [])
+            for (name, case) in job["cases"]:
+                if aff & case_methods(case) and time.time() < job["deadline"]:
+                    fn = _named_fn(name)
+                    ex.explore_case(case, named=(name, fn) if fn else None, max_schedules=2000,
+                                    deadline=job["deadline"], reduce=False, bound=2)
             for (name, case) in job["cases"]:
                 if time.time() > job["deadline"]:
                     rec = {"name": name, "case": case, "skipped": True}
@@ -1022,7 +1031,7 @@ def _worker_main() -> int:
         _CLOCK[0] = None
 
 
-def _spawn_workers(jobs: list, nproc: int, cap: int, deadline: float) -> list:
+def _spawn_workers(jobs: list, nproc: int, cap: int, deadline: float, affected=None) -> list:
     """static round-robin partition of the plain-DFS jobs over `nproc` independent child processes"""
     import tempfile
     workers = []
@@ -1034,7 +1043,8 @@ def _spawn_workers(jobs: list, nproc: int, cap: int, deadline: float) -> list:
         os.close(fd)
         p = subprocess.Popen([sys.executable, "-m", "harness.families.threads", "_worker"], cwd=str(LEAN_DIR.parent),
                              stdin=subprocess.PIPE, stdout=subprocess.DEVNULL, stderr=subprocess.PIPE, text=True)
-        p.stdin.write(json.dumps({"cases": part, "cap": cap, "deadline": deadline, "reduce": False, "out": out}))
+        p.stdin.write(json.dumps({"cases": part, "cap": cap, "deadline": deadline, "reduce": False, "out": out,
+                                  "affected": sorted(affected or [])}))
         p.stdin.close()
         workers.append((p, out, len(part)))
     return workers
@@ -1101,7 +1111,7 @@ def run(tier: str, seed: int) -> dict:
         seenk = {_case_key(c) for _, c in plain_jobs}
         plain_jobs += [(n, c) for n, c in extra if _case_key(c) not in seenk]
     plain_jobs.sort(key=lambda nc: (prio(nc[1]), 0 if nc[0] else 1))
-    workers = _spawn_workers(plain_jobs, nproc, plain_cap, deadline)
+    workers = _spawn_workers(plain_jobs, nproc, plain_cap, deadline, affected)
 
     # ---- sleep-set DFS in this process ----------------------------------------------------------------
     old_time = _rb.time
